@@ -97,6 +97,6 @@ Required == {"Load", "Ravel", "URavel", "Wind", "UWind", "refused", "custom-name
              "kind-face", "kind-left", "kind-back", "kind-node", "kind-edge"}
 
 Verdict == [records |-> Len(Log), fails |-> SetToSeq(fails), seen |-> SetToSeq(seen),
-            missing |-> SetToSeq(Required \ seen)]
+            missing |-> IF "NO_REQUIRED" \in DOMAIN IOEnv THEN <<>> ELSE SetToSeq(Required \ seen)]
 EmitVerdict == Done => JsonSerialize(IOEnv.VERDICT_FILE, Verdict)
 =============================================================================
